@@ -726,6 +726,13 @@ class Lowerer:
 
     def contract_text(self, cname, spec):
         t = ''
+        if getattr(self, 'no_contracts', False):
+            return t
+        if cname in self.specs:
+            if not spec.get('requires'):
+                t += '\n  __CPROVER_requires(1)'
+            if not spec.get('ensures'):
+                t += '\n  __CPROVER_ensures(1)'
         for k, kw in (('requires', '__CPROVER_requires'), ('ensures', '__CPROVER_ensures')):
             for c in spec.get(k, []):
                 t += '\n  %s(%s)' % (kw, c)
@@ -978,7 +985,7 @@ class Lowerer:
         ix = self.cur['loop_ix']
         self.cur['loop_ix'] += 1
         lc = (self.cur['spec'].get('loops') or {}).get(ix)
-        if not lc:
+        if not lc or getattr(self, 'no_contracts', False):
             return ''
         I = self.ind(d + 1)
         s = ''
